@@ -6,7 +6,7 @@ export GOFLAGS=-mod=mod GOPROXY=off GOSUMDB=off GOTOOLCHAIN=local
 mkdir -p .bin .logs evidence replays
 cd harness
 rc=0
-go1.26 build -tags verif ./... || rc=1
+go1.26 build -tags verif ./mon/... ./resp/... ./drv/... ./fakeredis/... ./minilua/... ./stress/... || rc=1
 go1.26 build -tags verif -race github.com/redis/rueidis ./fakeredis/... ./mon/... ./resp/... ./drv/... 2>/dev/null
 for p in props/*/; do
   p=$(basename $p)
